@@ -415,12 +415,28 @@ def main(argv):
         wfuts = {k: pool.submit(run_worker, root, bases, o, k) for k, o in orders.items()}
         # all environments of all requests are submitted at once
         jobs = []
+        twins = {}
         for i, spec in enumerate(specs):
             er = R.stream(seed, "c10", "env", i)
             envs = [gen_env(er, j, nenv) for j in range(nenv)]
             for env in envs:
                 if env["reuse"]:
                     env["other_base"] = bases[(i + 1) % len(bases)]
+                    # half of the reuse patterns pair the request with ITSELF AFTER AN EDIT OF ITS OPTION FILES (a build
+                    # worker rebuilding one API): state keyed by package / selector / path instead of content leaks here
+                    if (spec.get("service_config") or spec.get("service_yaml")) and er.random() < 0.5:
+                        if i not in twins:
+                            from . import grammar
+                            tb = os.path.join(root, f"r{i}twin")
+                            os.makedirs(tb)
+                            try:
+                                materialise(grammar.twin_spec(R.stream(seed, "c10", "twin", i), spec), tb)
+                                twins[i] = tb
+                            except Exception:  # noqa
+                                twins[i] = None
+                        if twins[i]:
+                            env["other_base"] = twins[i]
+                            stats["twin_reuse_runs"] = stats.get("twin_reuse_runs", 0) + 1
             futs = [pool.submit(launch, bases[i], env, f"e{j}", env.get("other_base")) for j, env in enumerate(envs)]
             jobs.append((i, spec, envs, futs))
             if time.perf_counter() - t0 > b["wall_cap"]:
@@ -524,7 +540,7 @@ def main(argv):
                   "process_reuse_runs": stats["reuse_runs"], "stdin_runs": stats["stdin_runs"],
                   "build_worker_generations": stats.get("worker_generations", 0),
                   "relative_option_path_runs": stats["relative_option_paths"], "distinct_clock_instants": len(stats["clock_instants"]),
-                  "faults_fired": {"hash_seed_change": stats["processes"], "process_reuse": stats["reuse_runs"],
+                  "faults_fired": {"hash_seed_change": stats["processes"], "process_reuse": stats["reuse_runs"], "process_reuse_same_api_edited_options": stats.get("twin_reuse_runs", 0),
                                    "cwd_change": stats["processes"], "env_noise": stats["processes"], "fake_wall_clock": stats["processes"]},
                   "processes_per_hour": int(stats["processes"] / wall * 3600) if wall else 0,
                   "components_real": ["gapic.cli.generate.generate (real CLI entry point), whole generator, both option files, in separate interpreter processes"],
